@@ -340,7 +340,8 @@ type vf2Line struct {
 
 func vf2Payload(k int) []byte {
 	// a distinguishable "IP packet": 20-byte header stub + number
-	b := make([]byte, 28)
+	// lengths 28..31: netlink pads attribute values to 4 octets - the padding is not part of the packet
+	b := make([]byte, 28+k%4)
 	b[0] = 0x45
 	for i := 0; i < 8; i++ {
 		b[20+i] = byte(uint64(k) >> (8 * (7 - i)))
